@@ -161,6 +161,11 @@ class _NodeParameters(nn.Module):
             facts = _utils.fact_to_bounds(facts, self.propositional)
             self.bounds_table[..., 0] = facts[0]
             self.bounds_table[..., 1] = facts[1]
+            if update_leaves:
+                clone = self.leaves.clone()
+                clone[..., 0] = facts[0]
+                clone[..., 1] = facts[1]
+                self.leaves = Parameter(clone, self.bounds_learning)
         elif isinstance(grounding_rows, dict) or isinstance(grounding_rows, list):
             [func(*_) for _ in zip(grounding_rows, facts)]
         else:
